@@ -595,3 +595,80 @@ def run(ctx):
 
     # ---- C10.e capture mode vs re-decode mode -------------------------------------
     K.check_redecode_modes(ctx, f, only=("ca::sigmsg::",))
+    check_created_message_windows(ctx, f)
+
+
+def check_created_message_windows(ctx, f):
+    """"Messages created by the library validate for every time within their validity": validate_at needs the evaluation
+    time inside the EE certificate's validity *and* inside [thisUpdate, nextUpdate] of the embedded CRL, so a created
+    message must give the CRL exactly the window of the certificate.  Decided as provenance: the function that creates the
+    message hands one and the same validity to the CRL constructor and to the EE certificate constructor; the CRL
+    constructor stores its not_before / not_after as this_update / next_update; the certificate body stores it as is."""
+    from engine.rules import aggregates_of
+    mk = f.body("ca::sigmsg::SignedMessage::create")
+    if mk is None:
+        return ctx.missing("R-FLOW", "SignedMessage::create", "ca::sigmsg::SignedMessage::create")
+    ctx.saw_fn(mk.name)
+    vparam = None
+    for i in range(1, mk.arg_count + 1):
+        if mk.local_ty(i).endswith("x509::Validity"):
+            vparam = render(strip_deep(K.sym_of(mk).local(i)))
+    crl = [c for c in mk.calls() if c.res and c.res.startswith("ca::sigmsg::") and "Crl" in c.res and not mk.is_cleanup(c.bb)
+           and any(t.endswith("x509::Validity") for t in (f.fns.get(c.res) or {}).get("inputs", []))]
+    ee = [c for c in mk.calls() if c.res and c.res.startswith("ca::idcert::") and not mk.is_cleanup(c.bb)
+          and any(t.endswith("x509::Validity") for t in (f.fns.get(c.res) or {}).get("inputs", []))]
+
+    def validity_arg(c):
+        ins = (f.fns.get(c.res) or {}).get("inputs", [])
+        a = K.arg_renders(c)
+        return [a[i] for i, t in enumerate(ins) if t.endswith("x509::Validity") and i < len(a)]
+    got = {short(c.res): validity_arg(c) for c in crl + ee}
+    ok = vparam is not None and len(crl) == 1 and len(ee) == 1 and all(v == [vparam] for v in got.values())
+    ctx.ob("R-FLOW", "SignedMessage::create:one-window", ok,
+           "SignedMessage::create gives the embedded CRL and the EE certificate the same validity (the caller's)",
+           where=mk.loc, detail=got)
+    # the CRL constructor: this_update / next_update are the two ends of that validity
+    for c in crl:
+        b = f.body(c.res)
+        if b is None:
+            continue
+        ctx.saw_fn(b.name)
+        vp = [render(strip_deep(K.sym_of(b).local(i))) for i in range(1, b.arg_count + 1) if b.local_ty(i).endswith("x509::Validity")]
+        lits = [(bd, bi, si, st) for bd, bi, si, st in aggregates_of(f, "ca::sigmsg::SignedMessageTbsCrl") if bd.name == b.name]
+        okc = len(vp) == 1 and len(lits) == 1
+        det = None
+        if okc:
+            flds = dict((str(k), render(strip_deep(v))) for k, v in K.sym_of(b).rvalue(lits[0][3]["rv"])[3])
+            det = {k: flds.get(k) for k in ("this_update", "next_update")}
+            okc = det == {"this_update": "Validity::not_before(%s)" % vp[0], "next_update": "Validity::not_after(%s)" % vp[0]}
+        ctx.ob("R-FLOW", "%s:window-is-the-validity" % short(c.res), okc,
+               "%s issues the CRL for exactly [validity.not_before, validity.not_after]" % short(c.res), where=b.loc, detail=det)
+    # the certificate body keeps the validity it is given
+    nb = 0
+    for bd, bi, si, st in aggregates_of(f, "ca::idcert::TbsIdCert"):
+        if K.is_derived_body(bd) or "{closure" in bd.name:
+            continue
+        flds = dict((str(k), strip_deep(v)) for k, v in K.sym_of(bd).rvalue(st["rv"])[3])
+        v = flds.get("validity")
+        params = [strip_deep(K.sym_of(bd).local(i)) for i in range(1, bd.arg_count + 1) if bd.local_ty(i).endswith("x509::Validity")]
+        nb += 1
+        ctx.ob("R-FLOW", "%s:keeps-validity" % short(bd.name), len(params) == 1 and v == params[0],
+               "%s stores the validity it is given" % short(bd.name), where=bd.where(bi, si), detail=render(v) if v else None)
+    # ... and new_ee passes its own on
+    for c in ee:
+        b = f.body(c.res)
+        if b is None:
+            continue
+        vp = [render(strip_deep(K.sym_of(b).local(i))) for i in range(1, b.arg_count + 1) if b.local_ty(i).endswith("x509::Validity")]
+        inner = [x for x in b.calls() if x.res and x.res.startswith("ca::idcert::TbsIdCert::") and not b.is_cleanup(x.bb)
+                 and any(t.endswith("x509::Validity") for t in (f.fns.get(x.res) or {}).get("inputs", []))]
+        okp = len(vp) == 1 and len(inner) >= 1
+        det = {}
+        for x in inner:
+            ins = (f.fns.get(x.res) or {}).get("inputs", [])
+            a = K.arg_renders(x)
+            det[short(x.res)] = [a[i] for i, t in enumerate(ins) if t.endswith("x509::Validity") and i < len(a)]
+            okp = okp and det[short(x.res)] == [vp[0]]
+        ctx.ob("R-FLOW", "%s:passes-validity-on" % short(c.res), okp,
+               "%s builds the certificate body with the validity it is given" % short(c.res), where=b.loc, detail=det)
+    ctx.floor("R-FLOW", "TbsIdCert builders", nb, 1)
